@@ -619,3 +619,132 @@ Proof.
   assert (Hcfg : cfg t = c) by (unfold t; rewrite (run_cfg le pre t0 F1); apply (init_fields c h0 blocks t0 Hi)).
   rewrite <- Hcfg. split; [exact (user_deleted_only_by_purge le t o sc u ui F2 F3 Hu)|exact (window_step le t o sc u F2 F3)].
 Qed.
+
+(* ------------------------------------------------------------------------------------------ *)
+(* 4. C02 *)
+
+(* every K_send of every step of every run is justified (the four-way form, whose hypotheses Inv and
+   reorged_tracked hold in every reachable state) *)
+Theorem every_send_justified_run le c h0 blocks t0 h pre o sc post :
+  init c h0 blocks = Some t0 -> NoDup (map fst blocks) -> N.of_nat (length blocks) <= h0 ->
+  in_envelope le t0 h = true -> chain_disciplined le t0 h = true ->
+  h = pre ++ (o, sc) :: post ->
+  let t := fst (run le t0 pre) in
+  forall e, In e (rpc_log (fst (run le t0 (pre ++ [(o, sc)])))) -> r_kind e = K_send ->
+            TowerBreach.just_send4 t o (r_tx e).
+Proof.
+  intros Hi Hnd Hlen He Hc E t e Hin Hk.
+  destruct (reach_cut le c h0 blocks t0 h pre o sc post Hi Hnd Hlen He Hc E) as [F1 F2 F3 F4 F5 F6 F7 F8 F9].
+  rewrite F6 in Hin. fold t in Hin.
+  exact (TowerBreach.every_send_justified_all le t o sc _ _ (bi_inv _ F2)
+           (TowerBreach.reorged_tracked_reachable le c h0 blocks t0 pre Hi F1) (step_eq le t o sc) e Hin Hk).
+Qed.
+
+(* a run without any trigger: no block carries the locator of a row stored at that moment, no add_appointment
+   arrives for a locator the watcher's cache holds *)
+Definition no_trigger_at (t : tower) (o : op) : bool :=
+  match o with
+  | OConnect _ txs => forallb (fun a => negb (memN (a_loc a) txs)) (db_apps t)
+  | OAdd _ loc _ _ _ => match ti_get (w_cache t) loc with None => true | Some _ => false end
+  | _ => true
+  end.
+
+Fixpoint no_trigger_run (le : bool) (t : tower) (h : list (op * script)) : bool :=
+  match h with
+  | [] => true
+  | (o, sc) :: r => no_trigger_at t o && no_trigger_run le (fst (step le t o sc)) r
+  end.
+
+Lemma nil_of_no_mem {A} (l : list A) : (forall x, ~ In x l) -> l = [].
+Proof. destruct l as [|x l]; [reflexivity|]. intros H. exfalso. apply (H x). left. reflexivity. Qed.
+
+(* ONE STEP without trigger from a state without trackers: no tracker afterwards, and not a single
+   sendrawtransaction *)
+Lemma quiet_without_trigger le t o sc t' x :
+  Inv t -> TowerBreach.reorged_tracked t -> db_trks t = [] -> no_trigger_at t o = true ->
+  step le t o sc = (t', x) -> not_abort x ->
+  db_trks t' = [] /\ forall e, In e (rpc_log t') -> r_kind e <> K_send.
+Proof.
+  intros HI HR Hk0 Hnt Hstep Hna. split.
+  - destruct o as [u|signer loc b delay sig|signer loc|signer|hash txs|].
+    + cbn [step] in Hstep. pose proof (TowerBreach.add_update_user_trks (set_rpc_log t []) u) as Hl.
+      destruct (gk_add_update_user (set_rpc_log t []) u); cbn [wrap] in Hstep; injection Hstep as <- <-;
+        destruct Hl as [Hl _]; rewrite Hl; exact Hk0.
+    + cbn [step] in Hstep. change (set_rpc_log t []) with (fresh t) in Hstep.
+      destruct (w_add_appointment sc (fresh t) signer loc b delay sig) as [r t1|] eqn:Ew; cbn [wrap] in Hstep;
+        injection Hstep as <- <-; [|destruct Hna].
+      cbn [no_trigger_at] in Hnt. destruct (ti_get (w_cache t) loc) eqn:Ec; [discriminate|].
+      pose proof (TowerBreach.add_appointment_stored sc (fresh t) signer loc b delay sig r t1 Ec Ew) as H.
+      destruct r; try (rewrite H; exact Hk0). destruct H as [u [_ [_ [_ [_ [_ [H _]]]]]]]. rewrite H. exact Hk0.
+    + destruct (get_unchanged le t sc signer loc) as [r Hr]. rewrite Hr in Hstep. injection Hstep as <- <-. exact Hk0.
+    + destruct (getsub_unchanged le t sc signer) as [r Hr]. rewrite Hr in Hstep. injection Hstep as <- <-. exact Hk0.
+    + destruct (TowerBreach.connect_ok le t hash txs sc t' x Hstep Hna) as [tg [tw [Eg [Ew Er]]]].
+      assert (HIf : Inv (fresh t)) by (apply TowerBreach.inv_fresh; exact HI).
+      assert (HIg : Inv tg).
+      { pose proof (gk_block_connected_pres Inv (sa_block Inv inv_stable) (fresh t) (gk_height t + 1) HIf) as Hp. rewrite Eg in Hp. exact Hp. }
+      destruct (TowerBreach.gk_block_connected_spec _ _ _ Eg) as [out [_ [_ [Hag [Hkg _]]]]].
+      cbn [db_apps db_trks fresh set_rpc_log] in Hag, Hkg. rewrite Hk0 in Hkg. cbn [filter] in Hkg.
+      destruct (TowerBreach.w_block_connected_frame sc tg hash txs (gk_height t + 1) tw HIg Ew) as [_ [_ [_ [_ [_ [_ [_ [_ [_ [_ [Hnewk _]]]]]]]]]]].
+      assert (Hkw : db_trks tw = []).
+      { apply nil_of_no_mem. intros k Hk. destruct (Hnewk k Hk) as [Hold|[a [Ha Hm]]]; [rewrite Hkg in Hold; exact Hold|].
+        destruct Hm as [HD _]. rewrite Hag in Ha. apply filter_In in Ha. destruct Ha as [Ha _].
+        cbn [no_trigger_at] in Hnt. rewrite forallb_forall in Hnt. specialize (Hnt a Ha).
+        apply negb_true_iff in Hnt. apply memN_In in HD. congruence. }
+      apply nil_of_no_mem. intros k Hk.
+      assert (Hn : find_trk (db_trks tw) (trk_uuid k) = None) by (rewrite Hkw; reflexivity).
+      destruct (TowerBreach.responder_keeps_untracked le sc tw hash txs (gk_height t + 1) t' (trk_uuid k) Er Hn) as [Hn' _].
+      exact (TowerBreach.find_trk_In _ _ Hk Hn').
+    + cbn [step] in Hstep. destruct (last_hash (set_rpc_log t [])) as [hash|].
+      * pose proof (TowerBreach.disconnect_reorged hash (gk_height (set_rpc_log t [])) (set_rpc_log t [])) as Hl.
+        destruct (run_listeners _ _ _); cbn [wrap] in Hstep; injection Hstep as <- <-; [|destruct Hna].
+        destruct Hl as [Hl _]. rewrite Hl. exact Hk0.
+      * injection Hstep as <- <-. exact Hk0.
+  - intros e He Hk. destruct (TowerBreach.every_send_justified_all le t o sc t' x HI HR Hstep e He Hk)
+      as [[hash [txs [a [-> [Ha [Hl _]]]]]]|[[k [Hkin _]]|[[k [Hkin _]]|[u [loc [b [delay [sig [d [-> [Hc _]]]]]]]]]]].
+    + cbn [no_trigger_at] in Hnt. rewrite forallb_forall in Hnt. specialize (Hnt a Ha).
+      apply negb_true_iff in Hnt. apply memN_In in Hl. congruence.
+    + rewrite Hk0 in Hkin. exact Hkin.
+    + rewrite Hk0 in Hkin. exact Hkin.
+    + cbn [no_trigger_at] in Hnt. rewrite Hc in Hnt. discriminate.
+Qed.
+
+Theorem no_send_without_breach_from le : forall h t,
+  BigInv t -> TowerBreach.reorged_tracked t -> db_trks t = [] ->
+  in_envelope le t h = true -> chain_disciplined le t h = true -> no_trigger_run le t h = true ->
+  forall pre o sc post, h = pre ++ (o, sc) :: post ->
+    db_trks (fst (run le t pre)) = [] /\
+    db_trks (fst (step le (fst (run le t pre)) o sc)) = [] /\
+    forall e, In e (rpc_log (fst (step le (fst (run le t pre)) o sc))) -> r_kind e <> K_send.
+Proof.
+  induction h as [|[o0 sc0] h IH]; intros t HB HR Hk0 He Hc Hn pre o sc post E; [destruct pre; discriminate|].
+  cbn [in_envelope chain_disciplined no_trigger_run] in He, Hc, Hn. apply andb_true_iff in He, Hc, Hn.
+  destruct He as [He1 He2]. destruct Hc as [Hc1 Hc2]. destruct Hn as [Hn1 Hn2].
+  pose proof (step_never_aborts le t o0 sc0 HB He1) as Hna. pose proof (step_big le t o0 sc0 HB He1 Hc1) as HB1.
+  destruct (quiet_without_trigger le t o0 sc0 _ _ (bi_inv t HB) HR Hk0 Hn1 (step_eq le t o0 sc0) Hna) as [Hk1 Hq].
+  destruct pre as [|[o1 sc1] pre]; cbn [List.app] in E.
+  - injection E as E1 E2 E3. subst o0 sc0 h. cbn [run fst]. auto.
+  - injection E as E1 E2 E3. subst o1 sc1 h. rewrite (run_cons_ok le t o0 sc0 pre Hna). cbn [fst].
+    apply (IH _ HB1 (TowerBreach.reorged_tracked_step le t o0 sc0 _ _ HR (step_eq le t o0 sc0) Hna) Hk1 He2 Hc2 Hn2 pre o sc post eq_refl).
+Qed.
+
+(* C02, run level: in a run that contains no block carrying a stored locator and no add_appointment for a cached
+   locator, no tracker is ever created and no sendrawtransaction is ever issued — in particular none for the penalty
+   of any stored (never triggered) appointment *)
+Theorem no_send_without_breach_run le c h0 blocks t0 h pre o sc post :
+  init c h0 blocks = Some t0 -> NoDup (map fst blocks) -> N.of_nat (length blocks) <= h0 ->
+  in_envelope le t0 h = true -> chain_disciplined le t0 h = true -> no_trigger_run le t0 h = true ->
+  h = pre ++ (o, sc) :: post ->
+  let t := fst (run le t0 pre) in
+  let t' := fst (run le t0 (pre ++ [(o, sc)])) in
+  db_trks t = [] /\ db_trks t' = [] /\
+  (forall e, In e (rpc_log t') -> r_kind e <> K_send) /\
+  (forall a p, In a (db_apps t) -> decrypt (a_blob a) (a_loc a) = Some p -> forall r, ~ In (mk_rpc K_send p r) (rpc_log t')).
+Proof.
+  intros Hi Hnd Hlen He Hc Hn E t t'. pose proof (big_init c h0 blocks t0 Hi Hnd Hlen) as HB.
+  destruct (init_fields c h0 blocks t0 Hi) as [_ [_ [Hk0 [Hr0 _]]]].
+  assert (HR : TowerBreach.reorged_tracked t0) by (intros u Hu; rewrite Hr0 in Hu; destruct Hu).
+  destruct (no_send_without_breach_from le h t0 HB HR Hk0 He Hc Hn pre o sc post E) as [A [B C]].
+  destruct (reach_cut le c h0 blocks t0 h pre o sc post Hi Hnd Hlen He Hc E) as [F1 F2 F3 F4 F5 F6 F7 F8 F9].
+  unfold t'. rewrite F6. split; [exact A|]. split; [exact B|]. split; [exact C|].
+  intros a p _ _ r Hin. exact (C _ Hin eq_refl).
+Qed.
